@@ -29,7 +29,7 @@ na = [{"property_id": i, "reason": NOT_APPLICABLE.get(i, "check not built yet (w
 m = {
     "version": 1,
     "setup_cmd": "./setup.sh",
-    "hooks": {"guard": "verif", "enable": "harness files are injected through go/packages overlays (gosym) and `go test -overlay` (replay) under build tag `verif`; /repo itself carries no hook code", "baseline_off_cmd": "cd /repo && go test -vet=off -count=1 ./glow/", "source_commits": [], "add_only": True},
+    "hooks": {"guard": "verif", "enable": "harness files are injected through go/packages overlays (gosym) and `go test -overlay` (replay) under build tag `verif`; /repo itself carries no hook code", "baseline_off_cmd": "cd /repo && go test -json -vet=off -count=1 -timeout 25m ./...", "source_commits": [], "add_only": True},
     "engines": [{"name": "gosym", "path": "engine", "serves_properties": [c["property_id"] for c in checks], "kind_free_text": "SSA->SMT-LIB2 bounded symbolic executor for Go (go/ssa), z3/cvc5 back-ends"}],
     "checks": checks,
     "notes": "See DESIGN.md. Exit codes of ./check: 0 held, 1 VIOLATION (reproduced), 2 INCONCLUSIVE (never a success).",
